@@ -473,6 +473,46 @@ def _bottle_spec(cfg, i, path):
     return path.outcome == 'exc'
 
 
+# ------------------------------------------------------------------ _enter: a refused nested session leaves no trace
+def _enter_configs(tier):
+    kinds = ['plain', 'ddl', 'serializable']
+    return [dict(outer=o, inner=n, sql_debug=sd, depth=d) for o in ['none'] + kinds for n in kinds for sd in (None, True) for d in (1, 2) if not (o == 'none' and d == 2)]
+
+
+def _mk_session(kind, sql_debug=None):
+    return core.DBSessionContextManager(ddl=(kind == 'ddl'), serializable=(kind == 'serializable'), sql_debug=sql_debug)
+
+
+def _enter_case(cfg, values):
+    def setup(run): _patch_core(run)
+
+    def call():
+        st = cur().state
+        outer = None if cfg['outer'] == 'none' else _mk_session(cfg['outer'])
+        core.local.db_session = outer
+        core.local.db_context_counter = 0 if outer is None else cfg['depth']
+        inner = _mk_session(cfg['inner'], cfg['sql_debug'])
+        st.update(outer=outer, inner=inner, counter0=core.local.db_context_counter, debug0=len(core.local.debug_stack))
+        try:
+            return inner._enter()
+        finally:
+            st['counter1'] = core.local.db_context_counter; st['session1'] = core.local.db_session
+            st['debug1'] = len(core.local.debug_stack)
+    return Case(call, {}, [], setup, _unpatch_core)
+
+
+def _enter_spec(cfg, i, path):
+    st = path.state
+    refused = (cfg['outer'] != 'none') and ((cfg['inner'] == 'ddl' and cfg['outer'] != 'ddl') or (cfg['inner'] == 'serializable' and cfg['outer'] != 'serializable'))
+    if refused:
+        # __exit__ will never run for a session whose __enter__ raised: nothing may be left behind
+        return (path.outcome == 'exc' and isinstance(path.value, core.TransactionError) and st['counter1'] == st['counter0']
+                and st['session1'] is st['outer'] and st['debug1'] == st['debug0'])
+    want_session = st['inner'] if st['outer'] is None else st['outer']
+    return (path.outcome == 'ret' and st['counter1'] == st['counter0'] + 1 and st['session1'] is want_session
+            and st['debug1'] == st['debug0'] + (1 if cfg['sql_debug'] is not None else 0))
+
+
 G = lambda f: (lambda cfg, i, path: f(cfg, i, path))
 CONTRACTS = [
     Contract('_commit_or_rollback', 'pony.orm.core:DBSessionContextManager._commit_or_rollback', _cor_configs, _cor_case,
@@ -483,6 +523,9 @@ CONTRACTS = [
              [('commits_only_at_outermost_exit', _exit_outermost_only), ('passes_exception_through', _exit_passes_exception),
               ('debug_state_popped', _exit_debug_popped)], allowed_exc=(Fault,),
              doc='modular: _commit_or_rollback replaced by an effect stub; nesting depth 1..3 (the function only tests counter == 0)'),
+    Contract('_enter', 'pony.orm.core:DBSessionContextManager._enter', _enter_configs, _enter_case,
+             [('refused_nested_session_leaves_no_trace_else_counter_incremented', _enter_spec)], allowed_exc=(core.TransactionError,),
+             doc='outer session none / plain / ddl / serializable x inner plain / ddl / serializable x depth 1, 2'),
     Contract('_wrap_function.new_func', ['pony.orm.core:DBSessionContextManager._wrap_function', 'pony.orm.core:DBSessionContextManager._enter'],
              _nf_configs, _nf_case,
              [('attempts_at_most_retry_plus_one', _nf_attempts_bounded), ('retry_only_after_retryable_failure_and_rollback', _nf_retry_only_after_retryable_and_rollback),
